@@ -1,7 +1,9 @@
 /-
   Property C07 — a diff reports only real differences: no no-op, no redundant hunk.
   Statement file (proofs in JdProofs/RealDiff.lean, namespace `Jd.Real`: the LIST reading, sections
-  0–5; JdProofs/RealDiffSet.lean, namespace `Jd.RealS`: the SET and MULTISET readings, section 6).
+  0–5; JdProofs/RealDiffSet.lean, namespace `Jd.RealS`: the SET and MULTISET readings, section 6;
+  JdProofs/RealDiffMerge.lean, namespace `Jd.RealM`: the MERGE strategy, section 7, and "no hunk is
+  redundant" for the LIST reading in general — objects, nested containers —, section 8).
 
   Model side: `diffM o a b` (JdModel/Diff.lean) is `a.Diff(b, options...)`; `diffNode o m a b p` is
   the recursive `diff` of one node under the path prefix `p` (`m`: merge strategy); `equals o x y` is
@@ -117,16 +119,67 @@
             members removed, two added), redundant because the two arrays have the same hash code.
       These are consequences of the known finding, not new defects.
 
+  MERGE STRATEGY (section 7; `isMerge o = true`, no Precision, no SetKeys) — ALL clauses
+    Vocabulary: a merge hunk is `^ {"Merge":true}` / `@ [keys]` / `+ v`; `Merge.objVoidFree x`: `x` is not
+    void and has no void object member. The merge strategy recurses into objects only and replaces
+    everything else as a whole, so every hunk sits at a KEY path and `getAt` locates it.
+    LIST reading of arrays (`dispatchTag o = .list`; in particular `[MERGE]`, `jd -f merge`):
+      `merge_hunk_real`   every hunk of `a.Diff(b, MERGE)` is a merge hunk at a key path, removes nothing,
+                          has no context lines, adds exactly ONE value `v`: what `b` holds there (up to
+                          the Go type of a top array node: a replaced array is reported as the typed
+                          node it was dispatched to), or void — a DELETION — when `b` holds nothing
+                          there and `a` does; what `a` holds there (if anything) is NOT `Equals` to `v`
+                          ("what it removes differs from what it adds", read for a strategy that
+                          removes by overwriting); `a` and `b` do not both hold an object there; the
+                          parent location holds an object on both sides;
+      `merge_equal_subdocument_not_mentioned`   `Equals` values at a key path (any depth, the root
+                          included): no hunk at or below it. No hash and no float hypothesis — the
+                          merge strategy decides by `Equals` itself;
+      `merge_no_redundant_hunk`   leave ANY single hunk out: the LIBRARY's `Patch` (`patchAll sw`) applies
+                          the rest — a merge hunk cannot fail — and the result is not `Equals` to `b`.
+    SET+MERGE / MULTISET+MERGE (`dispatchTag o = .set ∨ .mset`, `keysOf o = none`): the same three,
+      `merge_setmodes_hunk_real`, `merge_setmodes_equal_subdocument_not_mentioned`,
+      `merge_setmodes_no_redundant_hunk`.
+    Hypotheses: `a.wf`, `b.wf`, `a.rawDoc`, `b.rawDoc` (documents as read from text, sorted unique
+      keys); `Merge.objVoidFree b` (under which the merge diff IS a list of merge hunks) and
+      `Merge.objVoidFree a` — needed (model only) for the clause "a deletion deletes something":
+      `merge_void_member_witness`. NOT a hypothesis: `b.nullFree` (in memory a merge hunk `+ null` stores
+      null; only the RENDERED merge patch reads null as "delete", C11), no `FloatLaws`, no `finiteNums`,
+      no hash hypothesis in the list reading. Set readings only: `a.setDoc`, `b.setDoc`,
+      `HashFaithful o (subterms a ++ subterms b)`, `FloatEq0` — exactly the hypotheses under which the
+      merge diff in the set readings is a list of merge hunks at all (arrays that `Equals` identifies
+      are handed to the strict set diff, which must then be empty; without `HashFaithful` it is not:
+      the FNV collision of `Jd.Props.C02.setMerge_collision_witness`, class KF-C04-alias).
+
+  "NO HUNK IS REDUNDANT", LIST READING, STRICT STRATEGY, THE GENERAL CASE (section 8)
+    `no_redundant_hunk_list`: for `a` as read from text and `b` a list document, both in the domain of
+      the C01 list theorem — OBJECTS, ARRAYS IN ARRAYS, CONTAINERS AS LIST ELEMENTS at any depth —:
+      leave ANY single hunk out (an array-level hunk, a hunk inside a container standing in a list,
+      a member hunk of an object): if the rest applies at all under the documented meaning of hunks
+      (`applyStrictAll`), the result is not structurally equal to `b`. Any Precision option (the
+      statement is structural).
+    `no_redundant_hunk_list_patch` (`precOf o = 0`): the same about the LIBRARY's `Patch` (either
+      variant): the result is not structurally equal and not `Equals` to `b`.
+    Hypotheses: those of C01 in list mode (`wf`, `finiteNums`, `DPL.memOK`, `DPL.HashOK o a b`: no FNV
+      collision between a sub-term of `a` and one of `b` — list elements are matched by hash code —,
+      `DPL.ZeroOK a b`: no `0` / `-0` pair, `FloatLaws`) with `a.rawDoc` INSTEAD OF `a.listDoc`; needed:
+      `typed_list_redundant_witness` (a typed `jsonList` against a plain `jsonArray` with the same
+      elements gives ONE hunk replacing the whole value, and it is redundant; no reader produces
+      such a node: the known boundary of C05, read for C07).
+
   WHAT IS NOT PROVED (covered by correspondence and by the leave-one-out oracle of ./check C07 only)
-    * the SetKeys option in the SET reading (`keysOf o ≠ none`), a Precision option, and the MERGE
-      strategy (except clause 0), in every reading;
-    * list hunks whose elements are CONTAINERS of the same kind (a sub-diff inside a list: the index
-      in the path is an index of the partially patched array) — clauses 2, 3 and 4 ask `scalars`;
-    * "no redundant hunk" for OBJECT diffs and nested containers; clause 4 is about the reference
-      interpreter `applyStrictAll` (the library's `Patch` equals it on these hunks by C03).
+    * the SetKeys option (`keysOf o ≠ none`) in the SET reading, strict or MERGE;
+    * a Precision option: only the STRUCTURAL forms hold with it (clause 0; `no_redundant_hunk_list`:
+      the rest never gives a document structurally equal to `b`); every `Equals` form asks
+      `precOf o = 0` — with a Precision option C07 inherits the known finding KF-C05-precision;
+    * LIST reading, clauses 2 and 3 ("located", "removed differs from added") for list hunks whose
+      elements are CONTAINERS of the same kind (a sub-diff inside a list: the index in the path is
+      an index of the partially patched array): sections 2a, 3, 5 ask `scalars`. Clause 4 no longer
+      does (section 8).
 -/
 import JdProofs.RealDiff
 import JdProofs.RealDiffSet
+import JdProofs.RealDiffMerge
 
 set_option autoImplicit false
 
@@ -663,5 +716,214 @@ example : ∀ h ∈ diffM [.set] RealS.Example.exA RealS.Example.exB,
     (q := [.key "e"]) rfl (v := .arr .raw [.str "p", .str "q"])
     (v' := .arr .raw [.str "q", .str "p"]) rfl rfl (by decide +kernel)
     (DES.diffFaithful_of_check (by decide +kernel))
+
+/-! ## 7. The MERGE strategy (list reading of arrays, and SET+MERGE / MULTISET+MERGE)
+
+  Names of `Jd.RealM` and `Jd.Merge` are written qualified. `Merge.objVoidFree x`: `x` is not void and
+  no object member inside `x` is void. The clauses of `RealM.MergeHunkReal o a b h` are written out. -/
+
+/-- **clauses 1–3 for the MERGE strategy, list reading: every hunk describes a real difference.**
+    Every hunk `h` of `a.Diff(b, MERGE)` is a merge hunk at a key path, removes nothing and has no
+    context lines; it adds exactly one value `v`; if `b` holds `w` at the path, `v` is `w` (up to the
+    Go type of a top array node); if `b` holds nothing there, `v` is void (a deletion) and `a` does
+    hold something there; what `a` holds there (if anything) is not `Equals` to `v`; `a` and `b` do
+    not both hold an object there (objects are recursed into, everything else is replaced as a
+    whole); and the parent location holds an object on both sides -/
+theorem merge_hunk_real (o : Opts) (hm : isMerge o = true) (ho : dispatchTag o = .list)
+    (hprec : precOf o = 0) (a b : Json)
+    (haw : a.wf = true) (har : a.rawDoc = true) (hav : Merge.objVoidFree a = true)
+    (hbw : b.wf = true) (hbr : b.rawDoc = true) (hbv : Merge.objVoidFree b = true) :
+    ∀ h ∈ diffM o a b,
+      h.merge = true ∧ keysOnly h.path = true ∧ h.remove = [] ∧ h.before = [] ∧ h.after = [] ∧
+      (∃ v, h.add = [v] ∧
+        (∀ w, getAt b h.path = some w → asList v = asList w) ∧
+        (getAt b h.path = none → v = .void ∧ ∃ u, getAt a h.path = some u) ∧
+        (∀ u, getAt a h.path = some u → equals o u v = false)) ∧
+      (¬ ∃ kvs kvs', getAt a h.path = some (.obj kvs) ∧ getAt b h.path = some (.obj kvs')) ∧
+      (∀ q e, h.path = q ++ [e] →
+        ∃ kvs kvs', getAt a q = some (.obj kvs) ∧ getAt b q = some (.obj kvs')) :=
+  fun h hh =>
+    have R := RealM.merge_hunk_real_list o hm ho hprec a b haw har hav hbw hbr hbv h hh
+    ⟨R.merge, R.keys, R.noRemove, R.noContext.1, R.noContext.2, R.one, R.wholesale, R.parents⟩
+
+/-- **clause 1, MERGE strategy, list reading: equal sub-documents are never mentioned.** If `a` and
+    `b` hold `Equals` values at a key path `q` (any depth; `q = []` is the whole document), no hunk of
+    `a.Diff(b, MERGE)` has a path at or below `q`. No hash and no float hypothesis -/
+theorem merge_equal_subdocument_not_mentioned (o : Opts) (hm : isMerge o = true)
+    (ho : dispatchTag o = .list) (hprec : precOf o = 0) (a b : Json)
+    (haw : a.wf = true) (har : a.rawDoc = true)
+    (hbw : b.wf = true) (hbr : b.rawDoc = true) (hbv : Merge.objVoidFree b = true)
+    {q : Path} (hq : keysOnly q = true) {v v' : Json} (hv : getAt a q = some v)
+    (hv' : getAt b q = some v') (he : equals o v v' = true) :
+    ∀ h ∈ diffM o a b, ¬ q <+: h.path :=
+  RealM.merge_equal_subdoc_not_mentioned_list o hm ho hprec a b haw har hbw hbr hbv hq hv hv' he
+
+/-- **clause 4, MERGE strategy, list reading: no hunk is redundant.** Leave any single hunk out of
+    `a.Diff(b, MERGE)`: the LIBRARY's `Patch` (`patchAll sw`, either variant) applies the remaining hunks
+    — a merge hunk cannot fail — and the result is not `Equals` to `b` -/
+theorem merge_no_redundant_hunk (sw : Bool) (o : Opts) (hm : isMerge o = true)
+    (ho : dispatchTag o = .list) (hprec : precOf o = 0) (a b : Json)
+    (haw : a.wf = true) (har : a.rawDoc = true) (hav : Merge.objVoidFree a = true)
+    (hbw : b.wf = true) (hbr : b.rawDoc = true) (hbv : Merge.objVoidFree b = true)
+    (d1 d2 : Diff) (h : Hunk) (hd : diffM o a b = d1 ++ h :: d2) :
+    ∃ r, patchAll sw a (d1 ++ d2) = .ok r ∧ equals o r b = false :=
+  RealM.merge_no_redundant_hunk_list sw o hm ho hprec a b haw har hav hbw hbr hbv d1 d2 h hd
+
+/-- **clauses 1–3, SET+MERGE and MULTISET+MERGE** (the statement of `merge_hunk_real`; a replaced
+    array is reported as a `jsonSet` / `jsonMultiset` node, `asList` forgets that type) -/
+theorem merge_setmodes_hunk_real (F : FloatEq0) (o : Opts) (hmg : isMerge o = true)
+    (hm : dispatchTag o = .set ∨ dispatchTag o = .mset) (hk : keysOf o = none) (hp : precOf o = 0)
+    (a b : Json) (ha : a.setDoc = true) (hav : Merge.objVoidFree a = true)
+    (hb : b.setDoc = true) (hbv : Merge.objVoidFree b = true)
+    (HF : HashFaithful o (Jd.subterms a ++ Jd.subterms b)) :
+    ∀ h ∈ diffM o a b,
+      h.merge = true ∧ keysOnly h.path = true ∧ h.remove = [] ∧ h.before = [] ∧ h.after = [] ∧
+      (∃ v, h.add = [v] ∧
+        (∀ w, getAt b h.path = some w → asList v = asList w) ∧
+        (getAt b h.path = none → v = .void ∧ ∃ u, getAt a h.path = some u) ∧
+        (∀ u, getAt a h.path = some u → equals o u v = false)) ∧
+      (¬ ∃ kvs kvs', getAt a h.path = some (.obj kvs) ∧ getAt b h.path = some (.obj kvs')) ∧
+      (∀ q e, h.path = q ++ [e] →
+        ∃ kvs kvs', getAt a q = some (.obj kvs) ∧ getAt b q = some (.obj kvs')) :=
+  fun h hh =>
+    have R := RealM.merge_hunk_real_setmodes F o hmg hm hk hp a b ha hav hb hbv HF h hh
+    ⟨R.merge, R.keys, R.noRemove, R.noContext.1, R.noContext.2, R.one, R.wholesale, R.parents⟩
+
+/-- **clause 1, SET+MERGE and MULTISET+MERGE**: values that are `Equals` under the set (bag) reading
+    at a key path are not mentioned at or below it -/
+theorem merge_setmodes_equal_subdocument_not_mentioned (F : FloatEq0) (o : Opts)
+    (hmg : isMerge o = true) (hm : dispatchTag o = .set ∨ dispatchTag o = .mset)
+    (hk : keysOf o = none) (hp : precOf o = 0) (a b : Json) (ha : a.setDoc = true)
+    (hb : b.setDoc = true) (hbv : Merge.objVoidFree b = true)
+    (HF : HashFaithful o (Jd.subterms a ++ Jd.subterms b))
+    {q : Path} (hq : keysOnly q = true) {v v' : Json} (hv : getAt a q = some v)
+    (hv' : getAt b q = some v') (he : equals o v v' = true) :
+    ∀ h ∈ diffM o a b, ¬ q <+: h.path :=
+  RealM.merge_equal_subdoc_not_mentioned_setmodes F o hmg hm hk hp a b ha hb hbv HF hq hv hv' he
+
+/-- **clause 4, SET+MERGE and MULTISET+MERGE**: no hunk is redundant (library's `Patch`) -/
+theorem merge_setmodes_no_redundant_hunk (F : FloatEq0) (sw : Bool) (o : Opts)
+    (hmg : isMerge o = true) (hm : dispatchTag o = .set ∨ dispatchTag o = .mset)
+    (hk : keysOf o = none) (hp : precOf o = 0) (a b : Json)
+    (ha : a.setDoc = true) (hav : Merge.objVoidFree a = true)
+    (hb : b.setDoc = true) (hbv : Merge.objVoidFree b = true)
+    (HF : HashFaithful o (Jd.subterms a ++ Jd.subterms b))
+    (d1 d2 : Diff) (h : Hunk) (hd : diffM o a b = d1 ++ h :: d2) :
+    ∃ r, patchAll sw a (d1 ++ d2) = .ok r ∧ equals o r b = false :=
+  RealM.merge_no_redundant_hunk_setmodes F sw o hmg hm hk hp a b ha hav hb hbv HF d1 d2 h hd
+
+/-- why `Merge.objVoidFree a` in `merge_hunk_real` (model only; no reader produces a void member): a
+    void member of the first object that the second lacks is "deleted" by a hunk `+ void`, although
+    `a` holds nothing real there — and void `Equals` void -/
+theorem merge_void_member_witness (o : Opts) (ho : dispatchTag o = .list) (hm : isMerge o = true) :
+    diffM o (.obj [("k", .void)]) (.obj []) = [Merge.mh ["k"] .void] ∧
+    equals o .void .void = true :=
+  RealM.Witness.merge_void_member o ho hm
+
+/-! ### Non-vacuity of section 7
+
+  `RealM.Example.mA` = `{"a":{"x":"1","y":"2"},"k":["p"],"r":"gone","t":"u"}`, `RealM.Example.mB` =
+  `{"a":{"x":"1","y":"3"},"k":["q"],"n":"new","t":"u"}` under `[MERGE]`: four hunks (`RealM.Example.m_diff`:
+  a member two keys deep replaced, an array replaced as a whole, a member deleted, a member added;
+  the equal member `t` is not mentioned); every hypothesis holds (`RealM.Example.m_docs`). The set
+  readings: the pair of JdProofs/MergeSetModes.lean (`MSet.Example.ex_docs`, `ex_hashFaithful_set`). -/
+
+example : RealM.Example.mA.wf = true ∧ RealM.Example.mA.rawDoc = true ∧
+    Merge.objVoidFree RealM.Example.mA = true ∧ RealM.Example.mB.wf = true ∧
+    RealM.Example.mB.rawDoc = true ∧ Merge.objVoidFree RealM.Example.mB = true ∧
+    (diffM [.merge] RealM.Example.mA RealM.Example.mB).length = 4 :=
+  ⟨RealM.Example.m_docs.1, RealM.Example.m_docs.2.1, RealM.Example.m_docs.2.2.1,
+    RealM.Example.m_docs.2.2.2.1, RealM.Example.m_docs.2.2.2.2.1, RealM.Example.m_docs.2.2.2.2.2,
+    by rw [RealM.Example.m_diff]; rfl⟩
+
+/-- whatever hunk of the example diff is left out, the library's `Patch` with the rest succeeds and
+    does not give the target -/
+example (d1 d2 : Diff) (h : Hunk)
+    (hd : diffM [.merge] RealM.Example.mA RealM.Example.mB = d1 ++ h :: d2) :
+    ∃ r, patchM RealM.Example.mA (d1 ++ d2) = .ok r ∧ equals [.merge] r RealM.Example.mB = false :=
+  merge_no_redundant_hunk true [.merge] rfl rfl rfl _ _ RealM.Example.m_docs.1
+    RealM.Example.m_docs.2.1 RealM.Example.m_docs.2.2.1 RealM.Example.m_docs.2.2.2.1
+    RealM.Example.m_docs.2.2.2.2.1 RealM.Example.m_docs.2.2.2.2.2 d1 d2 h hd
+
+/-- SET+MERGE on `{"s":["x","y"],"u":"x","v":["x"]}` → `{"s":["y","x"],"t":[true],"v":["x","z"]}` -/
+example (F : FloatEq0) (d1 d2 : Diff) (h : Hunk)
+    (hd : diffM [.set, .merge] MSet.Example.exA MSet.Example.exB = d1 ++ h :: d2) :
+    ∃ r, patchM MSet.Example.exA (d1 ++ d2) = .ok r ∧
+      equals [.set, .merge] r MSet.Example.exB = false :=
+  merge_setmodes_no_redundant_hunk F true [.set, .merge] rfl (.inl rfl) rfl rfl _ _
+    MSet.Example.ex_docs.1 (by decide) MSet.Example.ex_docs.2.1 MSet.Example.ex_docs.2.2.2
+    MSet.Example.ex_hashFaithful_set d1 d2 h hd
+
+/-! ## 8. No hunk is redundant: LIST reading, strict strategy, the general case
+
+  Objects, arrays in arrays, containers as list elements at any depth. `memOK`, `HashOK`, `ZeroOK` are
+  `DPL.memOK` (no void object member), `DPL.HashOK o a b` (a sub-term of `a` and a sub-term of `b` with
+  the same hash code are structurally equal), `DPL.ZeroOK a b` (no `0` / `-0` pair between the numbers of
+  `a` and of `b`): the domain of the C01 list theorem. -/
+
+/-- **clause 4 in general.** Leave ANY single hunk `h` out of `a.Diff(b)` (list reading, strict
+    strategy; any Precision option): if the remaining hunks apply at all under the documented
+    meaning of hunks (`applyStrictAll`), the result is not structurally equal to `b` -/
+theorem no_redundant_hunk_list (L : FloatLaws) (o : Opts) (ho : dispatchTag o = .list)
+    (hm : isMerge o = false) (a b : Json)
+    (ha1 : a.rawDoc = true) (ha2 : a.wf = true) (ha3 : a.finiteNums = true) (ha4 : memOK a = true)
+    (hb1 : b.listDoc = true) (hb2 : b.wf = true) (hb3 : b.finiteNums = true) (hb4 : memOK b = true)
+    (H : HashOK o a b) (Z : ZeroOK a b)
+    (d1 d2 : Diff) (h : Hunk) (hd : diffM o a b = d1 ++ h :: d2) (r : Json)
+    (hr : applyStrictAll a (d1 ++ d2) = some r) : specEq r b = false :=
+  RealM.no_redundant_hunk_list L o ho hm a b ha1 ha2 ha3 ha4 hb1 hb2 hb3 hb4 H Z d1 d2 h hd r hr
+
+/-- the same about the LIBRARY's `Patch` (`patchAll sw`, either variant; no Precision option):
+    whatever it makes of `a` with the remaining hunks is not structurally equal to `b`, and not
+    `Equals` to it -/
+theorem no_redundant_hunk_list_patch (L : FloatLaws) (o : Opts) (ho : dispatchTag o = .list)
+    (hm : isMerge o = false) (hp : precOf o = 0) (a b : Json)
+    (ha1 : a.rawDoc = true) (ha2 : a.wf = true) (ha3 : a.finiteNums = true) (ha4 : memOK a = true)
+    (hb1 : b.listDoc = true) (hb2 : b.wf = true) (hb3 : b.finiteNums = true) (hb4 : memOK b = true)
+    (H : HashOK o a b) (Z : ZeroOK a b)
+    (d1 d2 : Diff) (h : Hunk) (hd : diffM o a b = d1 ++ h :: d2) (sw : Bool) (r : Json)
+    (hr : patchAll sw a (d1 ++ d2) = .ok r) : specEq r b = false ∧ equals o r b = false :=
+  RealM.no_redundant_hunk_list_patch L o ho hm hp a b ha1 ha2 ha3 ha4 hb1 hb2 hb3 hb4 H Z d1 d2 h hd
+    sw r hr
+
+/-- why `a.rawDoc` and not only `a.listDoc` (model only: no reader produces a typed `jsonList` node):
+    the diff of the EMPTY typed list and the EMPTY plain array is one hunk replacing the whole
+    value, and it IS redundant — leaving it out, nothing is applied and the document is already
+    structurally equal to the target -/
+theorem typed_list_redundant_witness :
+    diffM [] (.arr .list []) (.arr .raw []) =
+      [] ++ ({ path := [], remove := [.arr .list []], add := [.arr .raw []] } : Hunk) :: [] ∧
+    applyStrictAll (.arr .list []) ([] ++ []) = some (.arr .list []) ∧
+    specEq (.arr .list []) (.arr .raw []) = true :=
+  RealM.Witness.typed_list_redundant
+
+/-! ### Non-vacuity of section 8
+
+  `RealM.Example.pA` = `{"l":["a",{"k":"u"},"c"],"m":"x"}`, `RealM.Example.pB` =
+  `{"l":["b",{"k":"v"},"c"],"n":"y"}`: four hunks — a list hunk at `l[0]`, a hunk INSIDE the object
+  standing at `l[1]`, a removed member and an added member. Every structural hypothesis holds
+  (`RealM.Example.p_docs`), there is no hash collision and no signed-zero pair (`p_hash`, 7 × 7 pairs),
+  the diff is not empty (`p_diff_ne`), and every leave-one-out sub-diff does apply (`#eval`s in
+  JdProofs/RealDiffMerge.lean), so the hypothesis `hr` is satisfiable. -/
+
+example (L : FloatLaws) : RealM.Example.pA.rawDoc = true ∧ RealM.Example.pB.listDoc = true ∧
+    HashOK [] RealM.Example.pA RealM.Example.pB ∧ ZeroOK RealM.Example.pA RealM.Example.pB ∧
+    diffM [] RealM.Example.pA RealM.Example.pB ≠ [] :=
+  ⟨RealM.Example.p_docs.1, RealM.Example.p_docs.2.2.2.2.1, (RealM.Example.p_hash L).1,
+    (RealM.Example.p_hash L).2, RealM.Example.p_diff_ne L⟩
+
+/-- whatever hunk of the example diff is left out: neither the reference interpreter nor the
+    library's `Patch` reaches the target with the rest -/
+example (L : FloatLaws) (d1 d2 : Diff) (h : Hunk)
+    (hd : diffM [] RealM.Example.pA RealM.Example.pB = d1 ++ h :: d2) :
+    (∀ r, applyStrictAll RealM.Example.pA (d1 ++ d2) = some r → specEq r RealM.Example.pB = false) ∧
+    (∀ r, patchM RealM.Example.pA (d1 ++ d2) = .ok r →
+      specEq r RealM.Example.pB = false ∧ equals [] r RealM.Example.pB = false) := by
+  obtain ⟨a1, a2, a3, a4, b1, b2, b3, b4⟩ := RealM.Example.p_docs
+  obtain ⟨H, Z⟩ := RealM.Example.p_hash L
+  exact ⟨fun r hr => no_redundant_hunk_list L [] rfl rfl _ _ a1 a2 a3 a4 b1 b2 b3 b4 H Z d1 d2 h
+      hd r hr,
+    fun r hr => no_redundant_hunk_list_patch L [] rfl rfl rfl _ _ a1 a2 a3 a4 b1 b2 b3 b4 H Z d1
+      d2 h hd true r hr⟩
 
 end Jd.Props.C07
